@@ -28,12 +28,16 @@ LEVEL_TEXT = (
     "All concrete DPT classes over every payload they accept: complete for payloads of <= 2 octets (6-bit values, 256 and 65,536 arrays; in the quick "
     "tier the 65,536 arrays are complete for one class per behaviour signature - same code, same range/resolution parameters - and a 1/7 stride for its "
     "siblings, thorough: complete for every class); for 3..14-octet types every octet value in every position over zero / 0xFF / accepted backgrounds "
-    "plus 3,000 (100,000) random arrays. Longer payloads are sampled, hence exploration."
+    "plus 3,000 (100,000) random arrays. Order-aware pass: per payload family (same kind and length) 240 (2,400) payloads - the whole space when it has "
+    "<= 256 points - are decoded and re-encoded by all classes of the family back to back in both class orders and compared with each class's isolated "
+    "result. Longer payloads are sampled, hence exploration."
 )
 LEVEL_NOTE = (
     "Trusted: CPython float/struct. Judged: to_knx(from_knx(p)) does not raise, has the declared payload type/length, and decodes to an equal value "
     "(== or structurally equal dataclass; NaN equals NaN; text: U+FFFD -> '?'). Not judged: whether the re-encoded payload equals p bit for bit "
-    "(reserved bits may be normalised)."
+    "(reserved bits may be normalised). Order pass: any from_knx/to_knx outcome that differs from the one the class gave alone (after 300 unrelated calls) "
+    "is a violation - the statement's 'same value' cannot hold if a value depends on earlier calls; caches larger than ~300 entries or time-based state "
+    "are out of its reach."
 )
 SHARDS = {"quick": 1, "thorough": 16}
 TIMEOUT = {"quick": 300, "thorough": 3000}
@@ -250,13 +254,52 @@ def _call_sites(ctx, classes, fixed=None):
         ctx.count("call_site_loop_exceptions_recorded", len(loop.exceptions))
 
 
+def _order_pass(ctx, only_family=None):
+    """Calls must not depend on earlier calls: isolated vs interleaved decode/encode per payload family.
+
+    Every payload of a family (same payload kind and length, e.g. DPT 16.000/16.001, scaling/angle,
+    all 7.x/8.x/9.x, all 4-octet types) is decoded by all its classes back to back in both class
+    orders and each class encodes its value likewise; outcomes are compared with what the class gave
+    alone (vlib.dpt_gen.order_dependence).  A class-by-class sweep cannot see state shared between
+    classes (a cache in a class attribute inherited by a subclass).
+    """
+    import random
+
+    fams = G.families(G.concrete_dpt_classes())
+    for fi, key in enumerate(sorted(fams)):
+        name = f"{key[0]}/{key[1]}"
+        if only_family is not None:
+            if name != only_family:
+                continue
+        elif not ctx.mine(fi):
+            continue
+        members = fams[key]
+        rng = random.Random(f"C08-order/{ctx.seed}/{name}")
+        payloads = G.family_payloads(members, rng, ctx.scale(240, 2400))
+        calls = len(payloads) * len(members) * 2
+        ctx.ev(2 * calls)
+        ctx.count("interleaved_decodes", calls)
+        ctx.count("interleaved_encodes_at_most", calls)
+        ctx.count("interleaved_families")
+        ctx.distinct(("order", name, len(members)))
+        for f in G.order_dependence(members, payloads, rng):
+            cls = f["cls"]
+            ctx.violation(
+                f"{cls.__name__}-{f['op']}-depends-on-earlier-calls",
+                {"cls": cls.__name__, "family": name, "payload": G.describe(f["payload"]), "op": f["op"],
+                 "isolated": repr(f["isolated"])[:200], "interleaved": repr(f["interleaved"])[:200], "called_just_before": f["after"]},
+                f"{cls.__name__}.{'from_knx' if f['op'] == 'decode' else 'to_knx'} for payload {f['payload']!r}: alone it gives {f['isolated']!r}, "
+                f"right after {', '.join(f['after']) or 'its own earlier calls'} it gives {f['interleaved']!r}"[:500],
+            )
+
+
 def run(ctx):
     ctx.rule = (
         "every accepted payload of the class's own kind/length (space as in level text): from_knx -> to_knx -> from_knx compared with ==/structural "
         "equality; distinct = (class, magnitude/length bucket of the decoded value); call-site sample: decode-image values through "
         "RemoteValueSensor.process/respond and ExposeSensor write/read/set"
     )
-    ctx.require("roundtrips", "text_replacement_roundtrips", "call_site_roundtrips", "not_accepted")
+    ctx.require("roundtrips", "text_replacement_roundtrips", "call_site_roundtrips", "not_accepted", "interleaved_decodes")
     classes = G.concrete_dpt_classes()
     ctx.extra["dpt_classes"] = len(classes)
     reps = G.representatives(classes)
@@ -284,11 +327,14 @@ def run(ctx):
     if ctx.quick:
         mine = [cls for cls in mine if cls in reps]
     _call_sites(ctx, mine)
+    _order_pass(ctx)
 
 
 def replay(ctx, witness):
     cls = G.class_by_name(witness["cls"])
     payload = G.rebuild(witness["payload"])
+    if witness.get("family"):  # order dependence: re-run the (deterministic) pass of that family
+        _order_pass(ctx, only_family=witness["family"])
     _judge(ctx, cls, payload)
     _call_sites(ctx, [cls], fixed={cls.__name__: [payload]})
     ctx.distinct(("replay", cls.__name__))
